@@ -332,123 +332,72 @@ func runGob(m *model.Model, s *ob.Set) {
 			s.Check(ok, R, c, m.InstrPos(d.st), fmt.Sprintf("rejected unless <= %d", k), fmt.Sprintf("the decoded %s is stored without being compared with the largest enumerator (%d): out-of-range values reach `switch` statements that panic(\"unreachable\")", m.FieldN[f], k))
 		case m.F.Mant:
 			mv := d.st.Val
-			db, _ := constant.Int64Val(constant.BinaryOp(m.PkgConst("_DB"), token.QUO_ASSIGN, constant.MakeInt64(10)))
-			base := m.PkgConst("_DB")
-			elemOf := func(v ssa.Value) (*ssa.IndexAddr, bool) {
-				u, ok := v.(*ssa.UnOp)
-				if !ok || u.Op != token.MUL {
-					return nil, false
-				}
-				ia, ok := u.X.(*ssa.IndexAddr)
-				if !ok || ia.X != mv {
-					return nil, false
-				}
-				return ia, true
-			}
-			okEmpty := guarded(d.st.Block(), func(bo *ssa.BinOp) (int, bool) {
-				if isLenOf(bo.X, mv) {
-					if k, ok := model.ConstInt(bo.Y); ok && k == 0 {
-						switch bo.Op {
-						case token.EQL:
-							return 0, true
-						case token.NEQ, token.GTR:
-							return 1, true
+			okEmpty, okNorm, okWords, okDigits := gobMantChecks(m, fn, mv, decPrec, []*ssa.BasicBlock{d.st.Block()})
+			// the same checks may live in a validation helper: h(m, prec) error, whose non-nil result
+			// makes GobDecode return an error on an edge that dominates the store
+			if !(okEmpty && okNorm && okWords && okDigits) {
+				for _, hb := range fn.Blocks {
+					if !live[hb.Index] {
+						continue
+					}
+					for _, in := range hb.Instrs {
+						call, ok := in.(*ssa.Call)
+						if !ok {
+							continue
 						}
-					}
-				}
-				return 0, false
-			})
-			okNorm := guarded(d.st.Block(), func(bo *ssa.BinOp) (int, bool) {
-				ia, ok := elemOf(bo.X)
-				if !ok {
-					return 0, false
-				}
-				// index must be len(m)-1
-				ix, ok := ia.Index.(*ssa.BinOp)
-				if !ok || ix.Op != token.SUB || !isLenOf(ix.X, mv) {
-					return 0, false
-				}
-				if one, ok := model.ConstInt(ix.Y); !ok || one != 1 {
-					return 0, false
-				}
-				k, ok := model.ConstInt(bo.Y)
-				if ok && k == db {
-					switch bo.Op {
-					case token.LSS:
-						return 0, true
-					case token.GEQ:
-						return 1, true
-					}
-				}
-				return 0, false
-			})
-			// every word < base: a test inside a loop over m whose header dominates the store
-			okWords := false
-			for _, gb := range fn.Blocks {
-				if !live[gb.Index] || len(gb.Instrs) == 0 {
-					continue
-				}
-				ifi, ok := gb.Instrs[len(gb.Instrs)-1].(*ssa.If)
-				if !ok {
-					continue
-				}
-				bo, ok := ifi.Cond.(*ssa.BinOp)
-				if !ok {
-					continue
-				}
-				ia, ok := elemOf(bo.X)
-				if !ok {
-					continue
-				}
-				if _, isConst := ia.Index.(*ssa.Const); isConst {
-					continue
-				}
-				kc, ok := bo.Y.(*ssa.Const)
-				if !ok || kc.Value == nil {
-					continue
-				}
-				errEdge := -1
-				switch {
-				case bo.Op == token.GEQ && constant.Compare(kc.Value, token.EQL, base):
-					errEdge = 0
-				case bo.Op == token.LSS && constant.Compare(kc.Value, token.EQL, base):
-					errEdge = 1
-				}
-				if errEdge < 0 || !isErrorReturnBlock(gb.Succs[errEdge]) {
-					continue
-				}
-				// loop header: a dominator of gb that gb can reach again, dominating the store
-				for _, h := range fn.Blocks {
-					if m.Dominates(h, gb) && h != gb && m.Dominates(h, d.st.Block()) && blockReaches(gb, h) {
-						// the index must be the loop's induction variable ranging over len(m)
-						okWords = true
+						h := call.Call.StaticCallee()
+						if h == nil || !m.InDecimalPkg(h) || len(h.Blocks) == 0 || h.Signature.Results().Len() != 1 || !types.Identical(h.Signature.Results().At(0).Type(), types.Universe.Lookup("error").Type()) {
+							continue
+						}
+						mi, pi := -1, -1
+						for ai, a := range call.Call.Args {
+							if stripConv(a) == stripConv(mv) {
+								mi = ai
+							}
+							if decPrec != nil && stripConv(a) == stripConv(decPrec) {
+								pi = ai
+							}
+						}
+						if mi < 0 {
+							continue
+						}
+						// err != nil -> error return; the other edge dominates the store
+						guards := guarded(d.st.Block(), func(bo *ssa.BinOp) (int, bool) {
+							if bo.X != ssa.Value(call) {
+								return 0, false
+							}
+							if c, ok := bo.Y.(*ssa.Const); !ok || !c.IsNil() {
+								return 0, false
+							}
+							switch bo.Op {
+							case token.NEQ:
+								return 0, true
+							case token.EQL:
+								return 1, true
+							}
+							return 0, false
+						})
+						if !guards {
+							continue
+						}
+						var anchors []*ssa.BasicBlock
+						for _, b2 := range h.Blocks {
+							if r, ok := b2.Instrs[len(b2.Instrs)-1].(*ssa.Return); ok && !isErrorReturnBlock(b2) && len(r.Results) == 1 {
+								anchors = append(anchors, b2)
+							}
+						}
+						if len(anchors) == 0 {
+							continue
+						}
+						var hp ssa.Value
+						if pi >= 0 {
+							hp = h.Params[pi]
+						}
+						e2, n2, w2, d2 := gobMantChecks(m, h, h.Params[mi], hp, anchors)
+						okEmpty, okNorm, okWords, okDigits = okEmpty || e2, okNorm || n2, okWords || w2, okDigits || d2
 					}
 				}
 			}
-			okDigits := decPrec != nil && guarded(d.st.Block(), func(bo *ssa.BinOp) (int, bool) {
-				switch bo.Op {
-				case token.GTR, token.LSS, token.GEQ, token.LEQ:
-				default:
-					return 0, false
-				}
-				// one side depends on the mantissa, the other on the decoded precision
-				pv := stripConv(decPrec)
-				xm, ym := dependsOn(bo.X, mv, 6), dependsOn(bo.Y, mv, 6)
-				xp, yp := dependsOn(bo.X, pv, 4), dependsOn(bo.Y, pv, 4)
-				if xm && yp && !xp {
-					if bo.Op == token.GTR || bo.Op == token.GEQ {
-						return 0, true
-					}
-					return 1, true
-				}
-				if ym && xp && !yp {
-					if bo.Op == token.LSS || bo.Op == token.LEQ {
-						return 0, true
-					}
-					return 1, true
-				}
-				return 0, false
-			})
 			s.Check(okEmpty, R, c+"/non-empty", m.InstrPos(d.st), "an empty mantissa is rejected", "a finite value may be stored with an empty mantissa")
 			s.Check(okNorm, R, c+"/normalised", m.InstrPos(d.st), "top word >= base/10 is required", "the decoded mantissa is stored without checking that its leading digit is non-zero")
 			s.Check(okWords, R, c+"/words<base", m.InstrPos(d.st), "every word is compared with the base", "the decoded mantissa is stored without checking every word against the word base")
@@ -839,4 +788,167 @@ func gobLayout(m *model.Model, s *ob.Set, dec *ssa.Function, decoded []dstore) {
 		s.Bad(R, "(*Decimal).GobDecode/G3:offsets", m.Pos(dec.Pos()), fmt.Sprintf("only %d word fields recognised in the encoder (expected prec, exp, mant)", len(ws)))
 	}
 	_ = strings.TrimSpace
+}
+
+// gobMantChecks looks in fn for the four validity tests of a decoded mantissa mv (decPrec: the
+// decoded precision, may be nil): each test must send its failing edge to an error return and its
+// passing edge must dominate every anchor block (the store of the mantissa in GobDecode, or the
+// `return nil` blocks of a validation helper).
+func gobMantChecks(m *model.Model, fn *ssa.Function, mv ssa.Value, decPrec ssa.Value, anchors []*ssa.BasicBlock) (okEmpty, okNorm, okWords, okDigits bool) {
+	live := m.Live(fn)
+	domAll := func(gb *ssa.BasicBlock, edge int) bool {
+		for _, a := range anchors {
+			if !m.EdgeDominates(gb, edge, a) {
+				return false
+			}
+		}
+		return true
+	}
+	guarded := func(test func(bo *ssa.BinOp) (errEdge int, ok bool)) bool {
+		for _, gb := range fn.Blocks {
+			if !live[gb.Index] || len(gb.Instrs) == 0 {
+				continue
+			}
+			ifi, ok := gb.Instrs[len(gb.Instrs)-1].(*ssa.If)
+			if !ok {
+				continue
+			}
+			bo, ok := ifi.Cond.(*ssa.BinOp)
+			if !ok {
+				continue
+			}
+			errEdge, ok := test(bo)
+			if !ok {
+				continue
+			}
+			if isErrorReturnBlock(gb.Succs[errEdge]) && domAll(gb, 1-errEdge) {
+				return true
+			}
+		}
+		return false
+	}
+	db, _ := constant.Int64Val(constant.BinaryOp(m.PkgConst("_DB"), token.QUO_ASSIGN, constant.MakeInt64(10)))
+	base := m.PkgConst("_DB")
+	elemOf := func(v ssa.Value) (*ssa.IndexAddr, bool) {
+		u, ok := v.(*ssa.UnOp)
+		if !ok || u.Op != token.MUL {
+			return nil, false
+		}
+		ia, ok := u.X.(*ssa.IndexAddr)
+		if !ok || ia.X != mv {
+			return nil, false
+		}
+		return ia, true
+	}
+	okEmpty = guarded(func(bo *ssa.BinOp) (int, bool) {
+		if isLenOf(bo.X, mv) {
+			if k, ok := model.ConstInt(bo.Y); ok && k == 0 {
+				switch bo.Op {
+				case token.EQL:
+					return 0, true
+				case token.NEQ, token.GTR:
+					return 1, true
+				}
+			}
+		}
+		return 0, false
+	})
+	okNorm = guarded(func(bo *ssa.BinOp) (int, bool) {
+		ia, ok := elemOf(bo.X)
+		if !ok {
+			return 0, false
+		}
+		// index must be len(m)-1
+		ix, ok := ia.Index.(*ssa.BinOp)
+		if !ok || ix.Op != token.SUB || !isLenOf(ix.X, mv) {
+			return 0, false
+		}
+		if one, ok := model.ConstInt(ix.Y); !ok || one != 1 {
+			return 0, false
+		}
+		k, ok := model.ConstInt(bo.Y)
+		if ok && k == db {
+			switch bo.Op {
+			case token.LSS:
+				return 0, true
+			case token.GEQ:
+				return 1, true
+			}
+		}
+		return 0, false
+	})
+	// every word < base: a test inside a loop over m whose header dominates the anchors
+	for _, gb := range fn.Blocks {
+		if !live[gb.Index] || len(gb.Instrs) == 0 {
+			continue
+		}
+		ifi, ok := gb.Instrs[len(gb.Instrs)-1].(*ssa.If)
+		if !ok {
+			continue
+		}
+		bo, ok := ifi.Cond.(*ssa.BinOp)
+		if !ok {
+			continue
+		}
+		ia, ok := elemOf(bo.X)
+		if !ok {
+			continue
+		}
+		if _, isConst := ia.Index.(*ssa.Const); isConst {
+			continue
+		}
+		kc, ok := bo.Y.(*ssa.Const)
+		if !ok || kc.Value == nil {
+			continue
+		}
+		errEdge := -1
+		switch {
+		case bo.Op == token.GEQ && constant.Compare(kc.Value, token.EQL, base):
+			errEdge = 0
+		case bo.Op == token.LSS && constant.Compare(kc.Value, token.EQL, base):
+			errEdge = 1
+		}
+		if errEdge < 0 || !isErrorReturnBlock(gb.Succs[errEdge]) {
+			continue
+		}
+		// loop header: a dominator of gb that gb can reach again, dominating the anchors
+		for _, h := range fn.Blocks {
+			if m.Dominates(h, gb) && h != gb && blockReaches(gb, h) {
+				all := true
+				for _, a := range anchors {
+					if !m.Dominates(h, a) {
+						all = false
+					}
+				}
+				if all {
+					okWords = true
+				}
+			}
+		}
+	}
+	okDigits = decPrec != nil && guarded(func(bo *ssa.BinOp) (int, bool) {
+		switch bo.Op {
+		case token.GTR, token.LSS, token.GEQ, token.LEQ:
+		default:
+			return 0, false
+		}
+		// one side depends on the mantissa, the other on the decoded precision
+		pv := stripConv(decPrec)
+		xm, ym := dependsOn(bo.X, mv, 6), dependsOn(bo.Y, mv, 6)
+		xp, yp := dependsOn(bo.X, pv, 4), dependsOn(bo.Y, pv, 4)
+		if xm && yp && !xp {
+			if bo.Op == token.GTR || bo.Op == token.GEQ {
+				return 0, true
+			}
+			return 1, true
+		}
+		if ym && xp && !yp {
+			if bo.Op == token.LSS || bo.Op == token.LEQ {
+				return 0, true
+			}
+			return 1, true
+		}
+		return 0, false
+	})
+	return
 }
